@@ -61,6 +61,7 @@ def drive (wrapper : String) : List String → String
       | some (got, calls, pulled) =>
         s!"events=[{" ".intercalate (got.map showEv)}] pulled={pulled} call={showCalls r env calls}"
     | _, _, _, _ => "bad-op"
+  | "nest" :: _ => "skip"   -- two wrappers stacked: judged by the composition oracle of the harness
   | _ => "bad-op"
 
 end OciModel.Driver.Select
